@@ -269,6 +269,8 @@ def generate(rng):
     n = rng.choice(deep([8, 12, 20, 30], [12, 20, 40, 60])) if ks <= 8 else rng.choice(deep([6, 10, 14], [10, 16, 24]))
     # the stream carries what set()/delete() return, so the writer uses the method syntax
     hist = [dict(c, via="m") if "via" in c else c for c in gen_history(rng, keys, vals, n) if c["op"] in ("set", "del", "reopen")]
+    if not hist:
+        hist = [{"op": "set", "k": hx(keys[0]), "v": hx(vals[0] or b"\x01"), "via": "m"}]
     nt = rng.choice([1, 2, 3, 4])
     p_trunc = rng.choice([0.0, 0.3, 0.5])
     p_each = rng.choice([0.0, 0.1, 0.3]) if ks <= 4 else rng.choice([0.0, 0.05])
